@@ -4,6 +4,15 @@
 K = {"name": "TestKnown", "enum": True}
 
 CHECKS = {
+    "C02": {
+        "level": "exploration",
+        "tests": [
+            {"name": "TestC02Concurrent", "checks": [40, 300], "shards": [2, 16], "race": True, "floor": 0.9, "shrinktime": "30s"},
+            K,
+        ],
+        "assumptions": ["schedules are explored by repetition, goroutine counts, GOMAXPROCS and yields, not enumerated; the race detector flags unsynchronised conflicting accesses without needing the bad timing",
+                        "the engine is fully configured before the goroutines start"],
+    },
     "C18": {
         "level": "exploration",
         "tests": [
